@@ -268,6 +268,8 @@ func checkC13(c *Ctx) {
 		r.Check(callsProcess && okVal && okQ, "C13.timeout-guard", "height-writer:"+fname(f), p.Pos(f.Pos()), "the observed height is written by the apply function with the event's external height, behind the quorum test",
 			sprintf("the observed external height is written outside the apply function, not from the event's height, or before the quorum test (apply fn=%v, value from event=%v, behind quorum=%v): an unconfirmed claim could time out every pending batch", callsProcess, okVal, okQ))
 	}
+	// which batch an observed execution names is part of the claim's identity (C14)
+	c.includeKeys("exact-delete", "C14", rulesIn("C14.coverage", "C14.injective"), func(rule, key string) bool { return strings.Contains(key, "BatchExecutedEvent") })
 	// the observed height is kept per chain
 	c.checkChainScoped("C13.timeout-guard", func(pn string) bool { return pn == "LastExternalBlockHeightKey" })
 	// exact delete
